@@ -214,7 +214,7 @@ def roots : List Root := [
   ⟨[1], false, true, true, [1], []⟩,  -- 6 spotMgr.startSpotlights#1 (worker conductor.go:321) runWorker(spotCtx, spm.stopper, func(ctx context.Context) {
   ⟨[1], false, true, true, [1], []⟩,  -- 7 collector.startCollector#1 (worker conductor.go:301) runWorker(colCtx, col.stopper, func(ctx context.Context) {
   ⟨[1], false, true, true, [1], []⟩,  -- 8 audition.startAudition#1 (worker conductor.go:281) runWorker(auCtx, au.stopper, func(ctx context.Context) {
-  ⟨[1], true, false, true, [1], []⟩,  -- 9 app.runForAllActors#1[runCleanup$1] (worker conductor.go:372) runWorker(actCtx, ap.stopper, func(ctx context.Context) {
+  ⟨[1], true, false, true, [1], []⟩,  -- 9 app.runForAllActors#1[runCleanup$1] (worker conductor.go:376) runWorker(actCtx, ap.stopper, func(ctx context.Context) {
   ⟨[5], true, false, true, [5], []⟩,  -- 10 prompter.runScene#1 (task prompt.go:208) if err := runAsyncTask(lineCtx, pr.stopper, func(ctx context.Context) {
   ⟨[6], true, false, true, [6], []⟩,  -- 11 spotMgr.manageSpotlights#1 (worker spotlight.go:73) runWorker(spotCtx, spm.stopper, func(ctx context.Context) {
   ⟨[9, 10], false, false, true, [9, 10], []⟩,  -- 12 actor.runActorCommandWithConsumer#1[runActorCommand$1] (go commands.go:157) go func() {
@@ -796,7 +796,7 @@ def g7 : List Access := [
 
 /-- actor.cleanupScript -/
 def g8 : List Access := [
-  A 1 8 false false [] true [(9, .mid)],  -- app.runCleanup$1 conductor.go:339 
+  A 1 8 false false [] true [(9, .mid)],  -- app.runCleanup$1 conductor.go:343 
   A 0 8 true false [] false [(1, .pre), (2, .pre), (3, .pre), (4, .pre)],  -- actor.prepareActionCommands commands.go:296 
   A 0 8 false false [] false [(1, .pre), (2, .pre), (3, .pre), (4, .pre)]  -- actor.prepareActionCommands commands.go:297 
 ]
@@ -867,10 +867,10 @@ def g15 : List Access := [
 /-- app.stopper -/
 def g16 : List Access := [
   A 1 16 false false [] true [(5, .pre), (6, .pre), (7, .pre), (8, .pre)],  -- app.makeTheater conductor.go:203 
-  A 1 16 false false [] true [(9, .mid)],  -- app.runForAllActors conductor.go:372 
+  A 1 16 false false [] true [(9, .mid)],  -- app.runForAllActors conductor.go:376 
   A 3 16 false false [] false [],  -- app.runConduct$2$1 run.go:277 
   A 2 16 false false [] false [],  -- app.runConduct$3 run.go:351 
-  A 9 16 false false [] true [(12, .pre), (13, .pre), (14, .pre)],  -- app.runForAllActors$3 conductor.go:379 
+  A 9 16 false false [] true [(12, .pre), (13, .pre), (14, .pre)],  -- app.runForAllActors$3 conductor.go:383 
   A 0 16 true false [] false [(1, .pre), (2, .pre), (3, .pre), (4, .mid)],  -- app.runConduct run.go:250 
   A 0 16 false false [] false [(1, .pre), (2, .pre), (3, .pre), (4, .mid)],  -- app.runConduct run.go:253 
   A 0 16 false false [] false [(1, .mid), (2, .pre), (3, .mid), (4, .mid)],  -- app.runConduct run.go:301 
@@ -1476,9 +1476,9 @@ def g99 : List Access := [
 
 /-- local app.runForAllActors.err -/
 def g100 : List Access := [
-  A 1 100 true false [] true [(9, .mid)],  -- app.runForAllActors conductor.go:396 
+  A 1 100 true false [] true [(9, .mid)],  -- app.runForAllActors conductor.go:400 
   A 1 100 false false [] true [(9, .mid)],  -- app.runForAllActors ? 
-  A 1 100 true false [] true []  -- app.runForAllActors$1 conductor.go:354 
+  A 1 100 true false [] true []  -- app.runForAllActors$1 conductor.go:358 
 ]
 
 /-- local app.subPlots.plotGroups[] -/
